@@ -488,8 +488,8 @@ func (h *harnessB) afterEstablished(g *gen) {
 
 		return !c.Alive()
 	}, func() {
-		if !c.Alive() || g.peerEnded || h.closeCalled || g.settled {
-			return
+		if !c.Alive() || g.peerEnded || h.closeCalled || g.settled || h.cur != g || c.L.A.ClosedAt >= 0 {
+			return // this connection is no longer the current generation (dropped, closed, reopened)
 		}
 		g.settled = true
 		if st := h.last; st != g.model && !(g.model == hsms.NotSelectedState && st == hsms.NotConnectedState) {
@@ -758,11 +758,10 @@ func (h *harnessB) final(reason string) {
 
 			return
 		}
-	} else if h.changes > 0 {
-		w.Fail("FINAL", "State() changed %d times but no notification was ever delivered", h.changes)
-
-		return
 	}
+	// (no notification at all is legal when the register went NotConnected -> NotSelected -> NotConnected
+	// before the first one was due — e.g. a Close processed ahead of the queued TCP-up notification:
+	// the implied last notified state, NotConnected, equals State(), which is checked next)
 	if st := h.r.C.State(); st != nc {
 		w.Fail("AFTER_CLOSE", "State() is %v at the end of the run, after Close", st)
 	}
